@@ -104,3 +104,9 @@ def run(rep, tier):
                "those helpers is not covered here")
     rep.assume("thread-local scratch reuse ('whatever was exponentiated before'): holders are modelled as freshly reset to arbitrary contents (holder_reset "
                "havocs the data), so no obligation depends on their previous contents; the RNG state of the estimator is outside the contracts")
+
+
+def replay(path):
+    ok = replaylib.run_replay("C07", path, "C07")
+    print("reproduced" if ok else "not reproduced")
+    return 1 if ok else 0
